@@ -307,7 +307,7 @@ def compare(ip, op, a, b, st, node=None):
             if isinstance(y, Const) and y.value is None:
                 if isinstance(x, (Obj, FuncV, ClassV, ModV, TupleV, BytesV, Sym)):
                     return [(not pos, st)]
-                if isinstance(x, Opaque) and x.kind in ('str', 'bytes', 'int', 'bool'):
+                if isinstance(x, Opaque) and x.kind in ('str', 'bytes', 'int', 'bool', 'obj'):
                     return [(not pos, st)]       # the result of str() / a packed value is never None
                 if isinstance(x, Const):
                     return [((x.value is None) == pos, st)]
